@@ -238,6 +238,31 @@ func (e *Env) Exec(line string) string {
 				_ = mhub2.NewProposalsHandler(e.k)(c2, &types.TokenInfosChangeProposal{NewInfos: &types.TokenInfos{TokenInfos: l}})
 			}()
 		}
+		if len(w) > 1 && strings.HasPrefix(w[1], "dryrun:delegate:") && e.inited && !e.dead {
+			// a MsgDelegateKeys executed on a branch that is thrown away (CheckTx, a simulation, or a transaction whose later
+			// message fails): dryrun:delegate:<chain>:<validator>:<orchestrator>:<external address>
+			p := strings.Split(w[1], ":")
+			if len(p) == 6 {
+				c1, _ := e.ctx.CacheContext()
+				c2, _ := c1.CacheContext()
+				func() {
+					defer func() { recover() }()
+					valB, _ := hex.DecodeString(p[3])
+					valAcc := sdk.AccAddress(valB)
+					a := e.acc.GetAccount(c2, valAcc)
+					if a == nil {
+						a = e.acc.NewAccountWithAddress(c2, valAcc)
+					}
+					a.SetSequence(1)
+					e.acc.SetAccount(c2, a)
+					msg := &types.MsgDelegateKeys{ValidatorAddress: valStr(p[3]), OrchestratorAddress: accStr(p[4]), ExternalAddress: p[5],
+						EthSignature: e.signDelegate(p[5], valStr(p[3]), 0), ChainId: p[2]}
+					if msg.ValidateBasic() == nil {
+						_, _ = e.msg.SetDelegateKeys(sdk.WrapSDKContext(c2), msg)
+					}
+				}()
+			}
+		}
 		if len(w) > 1 && strings.HasPrefix(w[1], "restart:") && e.inited && !e.dead {
 			// a process restart of one node: replica <k> alone builds new keeper objects over its stores.  A node
 			// that restarted and a node that has been running since genesis must stay in step.
